@@ -14,6 +14,7 @@
 import concurrent.futures
 import json
 import os
+import re
 import vlib
 from vlib import Ctx, run_tlc, build_harness, run_bin, parse_jsonl, SPEC
 
@@ -21,13 +22,13 @@ D = os.path.join(SPEC, "auth")
 LIVES = ["1", "2", "3"]          # LifeDefault, LifeRefresh, LifeLong of every cfg that is bound to the code
 DEVS = ["RefreshIgnoresExpiry", "ValidInclusive", "SecondSession", "TokenReuse", "UidNoExpiry", "VerifyAnyUser",
         "RemoveKeepsTok"]
-ACTIONS = ["CreateUser", "RemoveUser", "Verify", "CreateSession", "Refresh", "Invalidate", "InvalidateUser",
+ACTIONS = ["CreateUser", "RemoveUser", "Verify", "Exists", "CreateSession", "Refresh", "Invalidate", "InvalidateUser",
            "UidByToken", "AuthRoute", "Tick"]
 # every (call, result) class of the property must occur among the replayed edges (vacuity guard on the graph)
 CLASSES = ["auth_route:200", "auth_route:401", "create_session:SessionAlreadyExists", "create_session:UserNotFound",
            "create_session:ok", "create_user:ok", "get_uid_by_token:InvalidToken", "get_uid_by_token:ok",
            "invalidate_session:ok", "invalidate_user_session:ok", "refresh_session:InvalidToken", "refresh_session:ok",
-           "remove_user:UserNotFound", "remove_user:ok", "tick:ok", "verify:false", "verify:true"]
+           "remove_user:UserNotFound", "remove_user:ok", "tick:ok", "verify:false", "verify:true", "exists:true", "exists:false"]
 
 
 def edge_lines(r):
@@ -144,6 +145,17 @@ def run(tier, replay):
         r = run_tlc("MC_Auth.tla", "MC_Auth_thorough.cfg", D, workers=8, timeout=2400, work_id="c17-mc", heap="8g")
         ctx.add_tlc("Auth, Dev={}: 3 uids, 3 live, 2 passwords, 4 tokens, clock 0..4", r)
         ctx.require_tlc_ok("MC_Auth_thorough", r)
+
+    # beyond the exhaustive bound: random behaviours of the spec with up to 5 simultaneous users, 3 passwords,
+    # 20 tokens, clock 0..12 and other lifetimes (2/3/5); invariants and ResultsOK are checked on every step
+    nsim = 2000 if thorough else 300
+    r = run_tlc("MC_Auth.tla", "MC_Auth_sim.cfg", D, workers=4 if thorough else 2, simulate=nsim, depth=60,
+                seed_val=ctx.seed, timeout=900, work_id="c17-sim")
+    m = re.search(r"The number of states generated: (\d+)", r.out)
+    r.generated = int(m.group(1)) if m else 0
+    ctx.add_tlc("Auth, Dev={}: -simulate %d behaviours per worker, depth 60, 10 uids / 5 live / 20 tokens" % nsim, r,
+                note="simulation: states are counted as transitions only")
+    ctx.require_tlc_ok("MC_Auth_sim", r)
 
     def dev_run(d):
         return d, run_tlc("MC_Auth.tla", "MC_Auth_dev_%s.cfg" % d, D, workers=2, timeout=600, work_id="c17-dev-" + d)
@@ -274,7 +286,8 @@ def run(tier, replay):
                        "real AuthProvider restored to the real state reached for that spec state (breadth-first, snapshots of the Vec<User> "
                        "database), each call with argument 0 under every concretisation of 'unknown' (empty, prefix, suffix, upper-case, "
                        "padded ...); Argon2-bound edges that do not discover a state are executed as a strided sample (counts in parts); "
-                       "non-trivial = distinct edges that change the state or return ok/true/200, counted once per graph")
+                       "non-trivial = distinct edges that change the observable state or give a positive answer (verify/exists true, 200, "
+                       "Ok(uid), refresh Ok), counted once per graph (not per pepper, not per concretisation)")
     ctx.cov["exhaustive"] = False
     ctx.assumptions += [
         "abstraction: uid/token strings <-> integers by first appearance; a Tick subtracts 10^6 s from every stored expiry (Session::valid is now < expiry)",
